@@ -191,8 +191,19 @@ def check(run):
                     run.ok('D4', f'max[r={r},base={base}]')
 
     # ---- D8 ordinary cells above pruned sub-trees: the level part of d1 is the union of the children's level masks
-    from .C02 import ordinary_mask_union
+    from .C02 import ordinary_mask_union, mk_child
     ordinary_mask_union(run, prog, 'D8', where, thorough)
+    # observation outside the property's quantifier (it speaks of the level-0 representation): above a pruned sub-tree the cached top-level hash
+    # chains on the lower-level hash (DataCell::create), while get_representation() always spells d1 d2 data ...; reported, not judged
+    try:
+        it = mk(prog)
+        c = cm.new_cell(it, cm.tvm_bits(it, cm.data_bits(9)), [mk_child(it, 0, 1)])
+        h2 = cm.call_method(it, c, 'calculate_representation_hash')
+        if repr(it.vkey(h2)) != repr(it.vkey(c.attrs['_hash'])):
+            run.info('ordinary cell of level 1 (above a pruned sub-tree): calculate_representation_hash() is not the cached hash - it hashes the data where the cached top-level hash hashes the level-0 hash; '
+                     'the property is about level-0 cells, where the two coincide (D5)')
+    except (RaiseEx, Fail):
+        pass
 
     # ---- D5 recomputed representation
     for b, depths in ((0, []), (5, [2]), (16, [0, 7, 3])):
